@@ -190,6 +190,10 @@ def programs_for(kind, rng, n):
             ("open", [["allow"], ["failT"], ["state"]]),
             ("stale-failure", [["failT"], ["failT"]]),
             ("stale+fresh", [["failT"], ["failS"]]),
+            # a transition that happens while another thread is already queued on the lock
+            ("probing", [["success"], ["failT"], ["failT"]]),
+            ("probing", [["success"], ["allow"], ["failT"]]),
+            ("near", [["failT"], ["allow"], ["failT"]]),
         ]
     else:
         fixed = [
@@ -275,6 +279,148 @@ def explore(ctx, kind, init, program, world, rng, bound, limit, nrandom):
     return len(seen)
 
 
+# ------------------------------------------------------------------ budget races while the clock moves
+# consume()/remaining() read the clock before taking the lock, so under threads a token may be stamped with a reading
+# older than the instant it is appended.  What must still hold is the window rule itself, judged with every
+# operation's reading known only up to the interval [clock at call, clock at return].
+MV_W = 10.0
+
+
+def moving_programs(rng, n):
+    fixed = [
+        # a stalled consume() stamps its token with an old reading behind a newer one
+        {"max": 2, "threads": [["c1"], ["c1"]], "ticks": [5.0], "after": [[7.0, "rem"], [0.0, "c1"], [0.0, "c1"], [4.0, "rem"]]},
+        {"max": 2, "threads": [["c1"], ["c1"]], "ticks": [5.0], "after": [[6.0, "c2"], [0.0, "rem"], [5.0, "c2"]]},
+        {"max": 3, "threads": [["c1", "c1"], ["c2"]], "ticks": [4.0, 4.0], "after": [[3.0, "rem"], [3.0, "c1"], [0.0, "rem"], [4.0, "c2"]]},
+        {"max": 1, "threads": [["c1"], ["rem"], ["c1"]], "ticks": [10.0], "after": [[0.0, "rem"], [5.0, "c1"], [5.0, "c1"]]},
+    ]
+    rnd = []
+    while len(rnd) < n:
+        k = rng.choice([2, 2, 3])
+        rnd.append({
+            "max": rng.randint(1, 3),
+            "threads": [[rng.choice(BUDGET_OPS) for _ in range(rng.choice([1, 1, 2]))] for _ in range(k)],
+            "ticks": [rng.choice([1.0, 4.0, 5.0, 6.0, 10.0]) for _ in range(rng.choice([1, 2, 3]))],
+            "after": [[rng.choice([0.0, 3.0, 5.0, 6.0, 7.0, 10.0]), rng.choice(BUDGET_OPS)] for _ in range(rng.randint(2, 5))],
+        })
+    return fixed, rnd
+
+
+def judge_moving(ops, mx):
+    """ops: dicts (name, cost, result, t_call, t_ret, s_call, s_ret) in any order.  Returns a message or None."""
+    grants = [o for o in ops if o["name"] != "rem" and o["result"] is True]
+    for g in ops:
+        before = [h for h in grants if h is not g and h["s_ret"] < g["s_call"]]
+        overlap = [h for h in grants if h is not g and not (h["s_ret"] < g["s_call"]) and h["s_call"] < g["s_ret"]]
+        certainly = sum(h["cost"] for h in before if h["t_call"] > g["t_ret"] - MV_W)
+        possibly = sum(h["cost"] for h in before + overlap if h["t_ret"] >= g["t_call"] - MV_W)
+        if g["name"] == "rem":
+            lo, hi = max(mx - possibly, 0), max(mx - certainly, 0)
+            if not (lo <= g["result"] <= hi):
+                return f"remaining() -> {g['result']} during [{g['t_call'] - T0}, {g['t_ret'] - T0}] but between {possibly} and {certainly} token(s) of {mx} were in the window: expected {lo}..{hi}"
+        elif g["result"] is True:
+            if certainly + g["cost"] > mx:
+                return f"consume({g['cost']}) granted during [{g['t_call'] - T0}, {g['t_ret'] - T0}] while {certainly} token(s) of {mx} granted less than {MV_W}s before were certainly still in the window"
+        else:
+            if possibly + g["cost"] <= mx:
+                return f"consume({g['cost']}) refused during [{g['t_call'] - T0}, {g['t_ret'] - T0}] while at most {possibly} token(s) of {mx} could be in the window"
+    return None
+
+
+def explore_moving_once(ctx, prog, world, schedule):
+    return explore_moving(ctx, prog, world, None, 0, 1, 0, first_prefix=schedule)
+
+
+def explore_moving(ctx, prog, world, rng, bound, limit, nrandom, first_prefix=()):
+    seq = [0]
+    ops = []
+
+    def mk(name):
+        cost = {"c1": 1, "c2": 2, "rem": 0}[name]
+
+        def op(b):
+            seq[0] += 1
+            o = {"name": name, "cost": cost, "t_call": world.t, "s_call": seq[0]}
+            o["result"] = b.consume(cost) if cost else b.remaining()
+            seq[0] += 1
+            o["t_ret"] = world.t
+            o["s_ret"] = seq[0]
+            ops.append(o)
+            return (name, o["result"])
+
+        return op
+
+    def tick(d):
+        def op(b):
+            world.t += d
+            return ("tick", d)
+
+        return op
+
+    def make():
+        world.t = T0
+        seq[0] = 0
+        del ops[:]
+        return Budget(max_retries=prog["max"], window_s=MV_W)
+
+    progs = [[mk(o) for o in th] for th in prog["threads"]] + [[tick(d) for d in prog["ticks"]]]
+    seen = set()
+    prefix = list(first_prefix)
+    n = 0
+    mode = "dfs"
+    rw = 0
+    while True:
+        r = sched.run_schedule(make, progs, prefix=prefix if mode == "dfs" else (), rng=None if mode == "dfs" else rng)
+        s = r["sched"]
+        n += 1
+        key = tuple(x[1] for x in s.trace)
+        seen.add(key)
+        ctx.cnt["schedules_run"] += 1
+        ctx.cnt["moving_clock_schedules"] += 1
+        ctx.cnt["line_events"] += s.line_events
+        ctx.cnt["lock_contention_events"] += s.contention
+        payload = {"moving": prog, "schedule": list(key)}
+        if not r["completed"] and not s.deadlock:
+            ctx.inconclusive_because(f"scheduler watchdog fired for {prog}")
+            return
+        if s.deadlock:
+            ctx.viol("deadlock", f"all unfinished threads blocked: {prog}; schedule {list(key)}", payload)
+            return
+        if r["errors"]:
+            ctx.viol("operation-raised-under-concurrency", f"{r['errors']} in {prog}; schedule {list(key)}", payload)
+            return
+        # sequential continuation on the same object: the effect of a mis-stamped or lost token shows when it ages out
+        b = r["obj"]
+        try:
+            for d, name in prog["after"]:
+                world.t += d
+                mk(name)(b)
+        except Exception as x:  # noqa: BLE001
+            ctx.viol("operation-raised-under-concurrency", f"{x!r} in the sequential continuation of {prog}; schedule {list(key)}", payload)
+            return
+        if any(o["t_ret"] != o["t_call"] for o in ops):
+            ctx.cnt["moving_clock_ops_spanning_a_tick"] += 1
+        bad = judge_moving(ops, prog["max"])
+        if bad:
+            ctx.viol("window-rule-broken-while-clock-moves", f"{bad}; program {prog}; schedule {list(key)}; operations {[(o['name'], o['result'], o['t_call'] - T0, o['t_ret'] - T0) for o in sorted(ops, key=lambda o: o['s_call'])]}", payload)
+            return
+        if mode == "dfs":
+            nxt = sched.next_prefix(s.trace, bound)
+            if nxt is None or n >= limit:
+                mode = "random"
+                if nrandom <= 0:
+                    break
+                continue
+            prefix = nxt
+        else:
+            rw += 1
+            if rw >= nrandom:
+                break
+    ctx.cnt["moving_clock_programs"] += 1
+    for k_ in seen:
+        ctx.add_hash("schedules", ["moving", prog, list(k_)])
+
+
 def stress(ctx, world, rng, rounds, nthreads):
     """Second line: free-running real threads, real locks, tiny switch interval; conservation checks."""
     old = sys.getswitchinterval()
@@ -350,6 +496,9 @@ def work(ctx, tier):
                 k = explore(ctx, kind, init, prog, world, rng, bound, limit, nrandom)
                 if len(ctx.samples) < 3 and ctx.shard == 0 and k:
                     ctx.sample({"component": kind, "initial_state": init, "program": prog, "distinct_schedules_explored": k})
+        fixed, rnd = moving_programs(rng, max(nprog // 4, 1))
+        for prog in [fp for i, fp in enumerate(fixed) if i % ctx.nshards == ctx.shard] + rnd:
+            explore_moving(ctx, prog, world, rng, bound, limit // 2, nrandom)
         stress(ctx, world, rng, 15 if tier == "quick" else 200, 8)
     sched.uninstall_monitor()
 
@@ -363,20 +512,25 @@ def conclude(ctx):
         "line_events": (ctx.cnt["line_events"], 50000),
         "lock_obtained_via:factory": (ctx.cnt["lock_obtained_via:factory"], 1),
         "stress_rounds": (ctx.cnt["stress_rounds"], 10),
+        "moving_clock_schedules": (ctx.cnt["moving_clock_schedules"], 500),
+        "moving_clock_ops_spanning_a_tick": (ctx.cnt["moving_clock_ops_spanning_a_tick"], 100),
     }
     return dict(
         rule=(
             "programs of 2-3 threads x 1-2 operations over {allow, record_success, record_failure(TRANSIENT|SERVER_ERROR), record_cancel, state} resp. {consume(1), consume(2), remaining()} from "
             "initial states {closed, one failure short, open, open-expired, half-open probing, half-open free, stale failure, stale+fresh failures} resp. {empty, two left, one left, full, all tokens expired, expired head + live token}; each program: DFS over schedules with a pre-emption "
             "bound (pre-emption possible before every source line of the component and at every lock operation) followed by seeded random walks; each schedule's (results, observable continuation) is looked up in "
-            "the set produced by all sequential order-respecting executions; distinct_nontrivial = distinct schedules (choice sequences); a schedule counts only if LINE events were delivered"
+            "the set produced by all sequential order-respecting executions; budget programs are run a second time with a ticker thread advancing the clock in the middle of operations and a sequential "
+            "continuation, judged by the window rule over reading intervals; locks the component creates during a run are scheduler-aware too; "
+            "distinct_nontrivial = distinct schedules (choice sequences); a schedule counts only if LINE events were delivered"
         ),
         evaluations=ctx.cnt["schedules_run"],
         nontrivial=len(ctx.sets["schedules"]),
         floors=floors,
         assumptions=[
             "pre-emption is injected at source-line granularity (sys.monitoring LINE events inside the redress package) and at lock acquire/release; bytecode-level pre-emption only in the free-running stress",
-            "the clock is frozen during a race (the components read it outside the lock by design)",
+            "the clock is frozen during a linearizability race (the components read it outside the lock by design); budget races with a moving clock (a ticker thread) are judged by the window rule with every "
+            "operation's reading known up to [clock at call, clock at return]; breaker races with a moving clock are not explored",
             "the component is its own sequential specification (C06/C07/C10 tie it to the models)",
             "schedules beyond the pre-emption bound are sampled by random walks only",
         ],
@@ -390,6 +544,32 @@ def replay(data):
     if "stress" in p:
         print("stress findings are not replayable deterministically; re-run the check")
         return 1
+    if "moving" in p:
+        import collections
+
+        class C:
+            cnt = collections.Counter()
+            out = []
+
+            def viol(self, k, m, pl):
+                self.out.append((k, m))
+
+            def add_hash(self, *a):
+                pass
+
+            def inconclusive_because(self, m):
+                self.out.append(("inconclusive", m))
+
+        c = C()
+        world = env.World()
+        with env.active(world):
+            # one schedule: DFS limit 1 and no random walks, starting from the recorded choice sequence
+            explore_moving_once(c, p["moving"], world, p["schedule"])
+        sched.uninstall_monitor()
+        for k, m in c.out:
+            print("  !!", k, m)
+        print("replay:", "violation reproduced" if c.out else "no violation on this tree")
+        return 1 if c.out else 0
     d = p["desc"]
     world = env.World()
     with env.active(world):
